@@ -109,6 +109,19 @@ CHECKS = {
         technique='contract (one-sided postcondition) discharged by exhaustive finite-domain evaluation of the real '
                   'loop-free function, CPython parser as specification',
         ref='DESIGN.md section 4 C09'),
+    'C10': dict(
+        category='proof',
+        text='Proof of the two kernel facts the raw path rests on: clip_src_loc normalises any requested rectangle '
+             'into valid coordinates (or raises exactly when the end precedes the start) and _put_src performs exactly '
+             'the requested text splice (for all line lists). The property itself is decided only within the bounded '
+             'stand-in: put_src(action=reparse) over rectangles between token boundaries x 9 replacement texts, '
+             'raw=True/auto puts, with ast.parse of the whole new source as oracle (either raise + nothing changed, or '
+             'src == splice and tree == parse; succeeds iff valid). The sweep is deterministic; every disagreement on '
+             'the unchanged tree is listed by exact input in known_findings.json (F-C10-1..3, genuine defects).',
+        note=TB + BND + ' Undecided remainder: parse-before-mutate order in _reparse_raw_* and the statement wrappers.',
+        technique='contract-based deductive verification of clip/splice (z3) + bounded runtime contracts on '
+                  'put_src/raw puts with CPython as oracle',
+        ref='DESIGN.md section 4 C10'),
     'C11': dict(
         category='proof',
         text='Proof of the shift kernel: the flag prefix and the per-node body of _offset (selected structurally from '
